@@ -192,7 +192,8 @@ func (t Time) Equal(strict bool, time2 Time) bool {
 	}
 
 	for i, t1 := range t {
-		if t1 != time2[i] {
+		// a tick missing from a shorter time2 counts as 0
+		if t1 != time2.Tick(i) {
 			return false
 		}
 	}
